@@ -11,7 +11,6 @@ import (
 
 	"github.com/jig/lisp"
 	"github.com/jig/lisp/lib/call"
-	"github.com/jig/lisp/lib/concurrent"
 	"github.com/jig/lisp/lisperror"
 	"github.com/jig/lisp/types"
 
@@ -185,7 +184,19 @@ func c04ValuePool(base types.EnvType) []struct {
 		// earlier case; cyclic values are excluded by the quantifier)
 		{"atom", types.List{Val: []types.MalType{types.Symbol{Val: "atom"}, 1}}}, {"future", types.List{Val: []types.MalType{types.Symbol{Val: "future"}, 1}}}, {"closure", ev("(fn (x) x)")}, {"closure0", ev("(fn () 1)")},
 		{"macro", ev("(do (defmacro c04m (fn (x) x)) c04m)")}, {"builtin", ev("+")}, {"go-error", errors.New("go-error-value")}, {"lisp-error", lisperror.NewLispError("thrown", nil)},
+		// appended (indices above are used by position): functions that went through with-meta / the ^ reader macro
+		{"closure-with-meta", ev("(with-meta (fn (x) x) {:doc 1})")}, {"closure-reader-meta", ev("^{:a 1} (fn (x) x)")},
+		{"macro-with-meta", ev("(do (defmacro c04mm (with-meta (fn (x) x) {:m 1})) c04mm)")}, {"builtin-with-meta", ev("(with-meta + {:b 1})")},
 	}
+}
+
+// pool0 evaluates src in a fresh standard environment (harness set-up values).
+func pool0(src string) types.MalType {
+	o := hx.EvalText(context.Background(), src, hx.NewStdEnv())
+	if o.Err != nil || o.Panicked {
+		panic(fmt.Sprint("harness: ", src, o.Err, o.PanicMsg))
+	}
+	return o.Val
 }
 
 func c04Builtins(base types.EnvType) []string {
@@ -328,7 +339,7 @@ func runC04(c *fw.Ctx) {
 	}
 	// (d) ASTs that READ cannot produce, built from the value types
 	closure := pool[16].v
-	atom := &concurrent.Atom{Val: 1}
+	atom := pool0("(atom 1)")
 	odd := []struct {
 		name string
 		v    types.MalType
@@ -398,6 +409,34 @@ func runC04(c *fw.Ctx) {
 			// give the body goroutines time to finish inside this case's START/END window
 			c.Case(fmt.Sprintf("futcancel-%d-%d-settle", fi, rep), src+" ; (bodies finishing)", func() { time.Sleep(12 * time.Millisecond) })
 			c.Count("kind.future-cancel", 1)
+		}
+	}
+	// (g) function values of every provenance x every way of applying them (well-formed and ill-formed): the evaluator's
+	// own call path, types.Apply (apply, map, swap!, reduce, sort-by…), macro expansion and futures are different code
+	fnSrc := []string{"(fn (x) x)", "(fn (x) (do x))", "(fn (x) 42)", "(fn (x) ())", "(fn (x) [x])", "(fn (x & r) x)", "(fn (& r) r)", "(fn () 7)",
+		"(with-meta (fn (x) x) {:doc 1})", "^{:a 1} (fn (x) x)", "(with-meta (with-meta (fn (x) (list x)) {:a 1}) nil)", "(with-meta (fn () 7) {})", "(with-meta (fn (& r) r) {:v 1})",
+		"(eval (quote (fn (x) x)))", "(eval (list (quote fn) (list (quote x)) (quote x)))", "((fn (k) (fn (x) (+ x k))) 1)", "(first (list (fn (x) x)))", "(get {:f (fn (x) x)} :f)",
+		"(deref (atom (fn (x) x)))", "(quasiquote (unquote (fn (x) x)))", "(let (f (fn (x) x)) (with-meta f {:again (meta f)}))", "+", "(with-meta + {:m 1})", "identity", "(with-meta identity {:m 1})", "inc"}
+	uses := []string{"(F 1)", "(F)", "(F 1 2)", "(F 1 2 3)", "(apply F [1])", "(apply F [])", "(apply F 1 2 [3])", "(map F [1 2])", "(map F [])", "(swap! (atom 1) F)", "(swap! (atom 1) F 2)",
+		"(reduce F 0 [1 2])", "(reduce F [1])", "(filter F [1 nil])", "(sort-by F [2 1])", "(do (defmacro MM F) (MM 1))", "(do (defmacro MM F) (MM))", "(do (defmacro MM F) (MM 1 2))",
+		"(do (defmacro MM F) (macroexpand (MM 1)))", "(do (defmacro MM F) (macroexpand (MM)))", "(do (defmacro MM F) (let (MM 5) MM))", "(do (defmacro MM F) (map MM [1]))",
+		"(future-call F)", "@(future-call F)", "@(future (F 1))", "@(future (F))", "(let (g F) (g 1))", "((fn (h) (h 1)) F)", "((fn (h) (h)) F)", "(meta F)", "(= F F)", "(str F)", "(pr-str [F])",
+		"(try (F) (catch e (F 1)))", "(try (throw F) (catch e (e 1)))", "(memoize F)", "((memoize F) 1)", "((memoize F))", "((partial F 1))", "((partial F))", "((comp F F) 1)", "(-> 1 F)", "(->> 1 (F))",
+		"(update {:a 1} :a F)", "(update-in {:a {:b 1}} [:a :b] F)", "(group-by F [1 2])", "(some F [1])", "(every? F [1])", "(run-fn-for F 1)", "(with-meta F F)", "(F F)"}
+	for fi, fsrc := range fnSrc {
+		for ui, use := range uses {
+			if !c.Mine(idx) {
+				idx++
+				continue
+			}
+			idx++
+			text := strings.ReplaceAll(strings.ReplaceAll(use, "MM", fmt.Sprintf("c04gm%d", fi)), "F", fsrc)
+			ast, rerr := lisp.READ(text, nil, base)
+			if rerr != nil {
+				continue
+			}
+			c04Run(c, base, fmt.Sprintf("fnuse-%d-%d", fi, ui), ast, text, fmt.Sprintf("fn-use:%d/%d", fi, ui), strings.Contains(use, "future") || (fi+ui)%3 == 0, true)
+			c.Count("kind.function-use", 1)
 		}
 	}
 	// (e) seeded random compositions of the above (nesting malformed forms inside each other)
